@@ -55,6 +55,7 @@ inductive MStep where
   | watcherTake
   | scan
   | query
+  | drop      -- the kernel drops the newest queued event and leaves its (global) overflow marker
 
 def mstep (c : Cfg) (n : Nat) (s : MSt) : MStep → Option MSt
   | .fs d o => if d < n then mfs s d o else none
@@ -64,7 +65,9 @@ def mstep (c : Cfg) (n : Nat) (s : MSt) : MStep → Option MSt
     | [] => none
     | (d, e) :: rest =>
       if !passes c e then some { s with queue := rest } else
-      let f1 := (updateAll c n s.dir).1
+      -- the overflow marker concerns every directory: all beliefs are dropped, then the watches are added again
+      let f0 : Nat → DSt := if e = .lost then (fun j => { s.dir j with tracked := false }) else s.dir
+      let f1 := (updateAll c n f0).1
       let f2 := if e = .rmdir ∧ (s.dir d).tracked then setDir f1 d { f1 d with tracked := false } else f1
       some { dir := f2, pend := true, queue := rest }
   | .scan =>
@@ -74,6 +77,7 @@ def mstep (c : Cfg) (n : Nat) (s : MSt) : MStep → Option MSt
     if s.pend then none else
     let (f1, due) := updateAll c n s.dir
     some { s with dir := f1, pend := due }
+  | .drop => if s.queue = [] then none else some { s with queue := s.queue.dropLast ++ [(0, .lost)] }
 
 def mrun (c : Cfg) (n : Nat) (s : MSt) (l : List MStep) : MSt := l.foldl (fun s st => (mstep c n s st).getD s) s
 
@@ -87,7 +91,8 @@ def mqueryNow (c : Cfg) (n : Nat) (s : MSt) : MSt :=
 
 /-- what directory `d` sees of the shared machine: its own state, the shared mutex/scan state, and
 the shared queue with the other directories' events reduced to "passes the filter or not" -/
-def pev (c : Cfg) (d : Nat) (p : Nat × Ev) : Ev := if p.1 = d then p.2 else if passes c p.2 then .change else .other
+def pev (c : Cfg) (d : Nat) (p : Nat × Ev) : Ev :=
+  if p.2 = .lost then .lost else if p.1 = d then p.2 else if passes c p.2 then .change else .other
 
 def proj (c : Cfg) (d : Nat) (s : MSt) : St :=
   ⟨(s.dir d).dirExists, (s.dir d).kwatch, (s.dir d).tracked, (s.dir d).seen, (s.dir d).stale, s.pend, s.queue.map (pev c d)⟩
